@@ -41,7 +41,7 @@ Keys(v) == UNION {SeqToSet(c.a) : c \in {x \in SeqToSet(Chain(v)) : x.ty = "with
 \* GetContextTags: outermost first; each layer is its <<k1, v1, k2, v2, ...>>
 Tags(v) == LET c == Chain(v)
                F[i \in 0..Len(c)] == IF i = 0 THEN <<>>
-                                     ELSE IF c[i].ty = "withContext" THEN F[i-1] \o <<c[i].a>> ELSE F[i-1]
+                                     ELSE IF c[i].ty = "withContext" /\ c[i].a # <<>> THEN F[i-1] \o <<c[i].a>> ELSE F[i-1]
            IN F[Len(c)]
 
 \* GetDomain: outermost withDomain on the chain; <<>> stands for NoDomain
